@@ -9,6 +9,7 @@
     goroutine eventually runs is Go's scheduler (DESIGN.md section 11). *)
 From Coq Require Import List NArith Bool String Arith.
 From Verif Require Import Sni.SchedSkel Sni.Shutdown Sni.ShutdownProofs Sni.ShutdownCfg Sni.ShutdownGen Gen.TransportSkel.
+From Verif Require Import Sni.ShutdownEndpoint Sni.ShutdownEndpointProofs.
 Import ListNotations.
 Local Open Scope N_scope.
 
@@ -37,7 +38,7 @@ Theorem C04_calls_return_bounded : forall acts s s' c x,
   serve s = SDone -> exec gen_cfg s acts = Some s' -> getc c (callers s) = Some x ->
   exists x', getc c (callers s') = Some x' /\
     (finished x' = true \/ caller_enabled gen_cfg s' c = true) /\
-    (5 <= count_own c acts -> finished x' = true)%nat.
+    (5 <= ShutdownProofs.count_own c acts -> finished x' = true)%nat.
 Proof. exact (fun acts s s' c x => calls_return_bounded gen_cfg gen_cfg_guarded acts s s' c x). Qed.
 Print Assumptions C04_calls_return_bounded.
 
@@ -125,6 +126,57 @@ Proof.
   exact (closed_arm_ready closed _ _ A10).
 Qed.
 Print Assumptions C04_accept_close_return.
+
+(** ** The endpoint side as threads (Sni/ShutdownEndpoint.v, arms read off the source) *)
+
+(** Accept returns once the endpoint's serve loop has ended or the endpoint
+    is closed. *)
+Theorem C04_endpoint_accept_exits : forall s t x,
+  gete t (ethreads s) = Some x -> e_kind x = KAccept -> e_pc x = ESelect ->
+  sdone s = true \/ eclosed s = true -> eenabled gen_ecfg s t = true.
+Proof. exact (accept_exits gen_ecfg gen_ecfg_guarded). Qed.
+Print Assumptions C04_endpoint_accept_exits.
+
+(** Close's graceful wait ends with the tunnel or with its timer; sendAccept
+    with the endpoint being closed or with its timer; and the timer of a
+    waiting Close / sendAccept can always fire, after which it is enabled. *)
+Theorem C04_endpoint_close_exits : forall s t x,
+  gete t (ethreads s) = Some x -> e_kind x = KClose -> e_pc x = ESelect ->
+  sdone s = true \/ e_timer x = true -> eenabled gen_ecfg s t = true.
+Proof. exact (close_exits gen_ecfg gen_ecfg_guarded). Qed.
+Print Assumptions C04_endpoint_close_exits.
+
+Theorem C04_endpoint_send_exits : forall s t x,
+  gete t (ethreads s) = Some x -> e_kind x = KSend -> e_pc x = ESelect ->
+  eclosed s = true \/ e_timer x = true -> eenabled gen_ecfg s t = true.
+Proof. exact (send_exits gen_ecfg gen_ecfg_guarded). Qed.
+Print Assumptions C04_endpoint_send_exits.
+
+Theorem C04_endpoint_timer_fires : forall s t x,
+  gete t (ethreads s) = Some x -> e_kind x <> KAccept -> e_pc x = ESelect ->
+  exists s', estep gen_ecfg s (ETimer t) = Some s' /\ eenabled gen_ecfg s' t = true.
+Proof. exact (timer_fires_then_enabled gen_ecfg gen_ecfg_guarded). Qed.
+Print Assumptions C04_endpoint_timer_fires.
+
+(** Every thread of the endpoint side has an exit once the tunnel is gone:
+    it is enabled, or its own timer makes it so, or it waits (sync.Once) for
+    another Close that itself has an exit. *)
+Theorem C04_endpoint_threads_exit : forall s t x,
+  ereachable gen_ecfg s -> sdone s = true ->
+  gete t (ethreads s) = Some x -> efinished x = false ->
+  can_exit gen_ecfg s t \/
+  (e_pc x = EOnceWait /\ exists r, eonce s = ORunning r /\ r <> t /\ can_exit gen_ecfg s r).
+Proof. exact (endpoint_threads_exit gen_ecfg gen_ecfg_guarded). Qed.
+Print Assumptions C04_endpoint_threads_exit.
+
+(** ... and it returns after at most 4 steps of its own, however the others
+    are scheduled. *)
+Theorem C04_endpoint_bounded_own_steps : forall acts s s' t x,
+  eexec gen_ecfg s acts = Some s' -> gete t (ethreads s) = Some x ->
+  exists x', gete t (ethreads s') = Some x' /\
+    (emeasure x' + ShutdownEndpointProofs.count_own t acts <= emeasure x)%nat.
+Proof. exact (ShutdownEndpointProofs.bounded_own_steps gen_ecfg). Qed.
+Print Assumptions C04_endpoint_bounded_own_steps.
 
 (** The pinned tree's configuration, kept as a counter-model: serve exits,
     closeAll's tunnel.Close enqueues its call and is never enabled again, so
@@ -258,3 +310,19 @@ Example C04_ex_side_dial_returns :
   | None => False
   end.
 Proof. vm_compute. repeat split. eexists. split; reflexivity. Qed.
+
+(** Endpoint side: Accept pending and a sendAccept with a full queue when the
+    server drops the endpoint; then two concurrent Close calls. *)
+Example C04_ex_endpoint_threads :
+  match eexec gen_ecfg (mkEState false false false 10 OFree [])
+          [ENew 1 KAccept; ENew 2 KSend; ETunnelGone; ENew 3 KClose; ENew 4 KClose; EOnce 3; EOnce 4] with
+  | Some s =>
+      eenabled gen_ecfg s 1 = true /\ eenabled gen_ecfg s 2 = false /\
+      eenabled gen_ecfg s 3 = true /\ eenabled gen_ecfg s 4 = false /\
+      match eexec gen_ecfg s [EArm 3 1; EFin 3; EWake 4; EArm 2 2; EArm 1 1] with
+      | Some s' => forallb (fun tx => efinished (snd tx)) (ethreads s') = true
+      | None => False
+      end
+  | None => False
+  end.
+Proof. vm_compute. repeat split. Qed.
